@@ -307,6 +307,55 @@ def loader_traces(run, name, nd, stride):
     run.extra["loader_trace_events"] = run.extra.get("loader_trace_events", 0) + st["events"]
 
 
+def viseca_traces(run, name, nd, stride):
+    """Binding B for ImportViseca.tla: the statement reader's own events (hooked code) on the statements of `nd`, validated
+    against spec/ImportVisecaTrace.tla; a rejected run is reported with the first event that is no step of the specification."""
+    from vlib import run_tlc, parse_stats
+    recs = read_records(nd)
+    tr = os.path.join(WORK, "%s-%s-vtrace.ndjson" % (run.pid, name))
+    p = subprocess.run([VH, "viseca-trace", "--in", nd, "--out", tr, "--stride", str(stride)], stdout=subprocess.PIPE, stderr=subprocess.PIPE, text=True)
+    if p.returncode != 0:
+        sys.stderr.write(p.stderr[-2000:])
+        raise ToolError("viseca trace recording failed")
+    info = json.loads(p.stdout.strip().splitlines()[-1])
+    if info["hook_events"] == 0 and info["runs"] > 0:
+        raise ToolError("vacuous: the statement reader emitted no event (is okane built with --cfg okane_verif and the hook present?)")
+    events = [l for l in open(tr)]
+    starts = [i for i, l in enumerate(events) if l.startswith('{"ev":"stmt"')]
+    offset, states, rounds, bad = 0, 0, 0, 0
+    while offset < len(events) and rounds < 6:
+        rounds += 1
+        part = tr + ".part"
+        with open(part, "w") as f:
+            f.writelines(events[offset:])
+        rc, out, secs = run_tlc("MCImportVisecaTrace.tla", "ImportVisecaTrace.cfg", workers=1, timeout=1200, env_extra={"TRACE": part},
+                                java_extra="-Xss1g -Xmx6g -Dtlc2.tool.queue.IStateQueue=StateDeque")
+        os.remove(part)
+        st = parse_stats(out) or {"distinct": 0, "generated": 0}
+        states += st["distinct"]
+        m = re.search(r'TRACE-REJECTED at event",\s*(\d+)', out)
+        if "No error has been found" in out and not m:
+            break
+        if not m:
+            sys.stderr.write(out[-3000:])
+            raise ToolError("viseca trace validation failed without a rejected event (an invariant of ImportViseca.tla is violated on a recorded run, or TLC failed)")
+        k = offset + int(m.group(1)) - 1
+        first = max(x for x in starts if x <= k)
+        nxt = min([x for x in starts if x > k] + [len(events)])
+        head = json.loads(events[first])
+        ev = json.loads(events[k])
+        rec = dict(recs[head["record"]]); rec["_mode"] = "viseca-trace"
+        run.report("trace_" + ev.get("ev", "?"), rec, {"first_unmatched_event": ev, "events_of_run": [json.loads(x) for x in events[first + 1:nxt]][:80]},
+                   "statement reader trace rejected: event %s is not a step of ImportViseca.tla from the state reached" % json.dumps(ev)[:300])
+        bad += 1
+        offset = nxt
+    run.add_model({"module": "MCImportVisecaTrace.tla", "cfg": "ImportVisecaTrace.cfg", "scenario": name, "states": states, "transitions": states,
+                   "seconds": 0, "traces": info["runs"] - bad, "events": len(events)})
+    run.traces += info["runs"] - bad
+    run.extra["viseca_trace_runs"] = run.extra.get("viseca_trace_runs", 0) + info["runs"] - bad
+    run.extra["viseca_trace_events"] = run.extra.get("viseca_trace_events", 0) + len(events)
+
+
 @check("C04")
 def c04(run):
     run.rule = ("script Dates of spec/mc/MCLedger.tla: three transactions, each dated 1..3 in ANY file order, optional declared "
@@ -830,7 +879,7 @@ def c18(run):
                 "10.50 with an included charge of 0.50 (with and without the amount before charges shown; credited back), 20.50 as a charged and a plain detail, "
                 "10.50 / 5.00 without details carrying their own charge of 0.50 / 5.00, 1234.56 as a one-detail batch, mixed-direction details} x value date before/equal to booking date, opening balance "
                 "0 / 1000.00 / -50.00 (debit balance), both row orders; non-trivial = statements with a batch")
-    run.assumptions += ["single-currency statements; charges are of the `included` kind, on debits, next to a detail (with or without AmtDtls) or on an entry without details",
+    run.assumptions += ["single-currency statements; charges next to a detail (with or without AmtDtls) or on an entry (with or without details), included in the amount (debits and credits) or not (debits; only the account posting and the balance of the transaction are then fixed)",
                         "the date of the opening-balance transaction is not compared (the statement does not say)",
                         "the account is given the opening balance by a funding transaction before the imported ledger is processed"]
     cfg = "ImportCamt_quick.cfg" if run.tier == "quick" else "ImportCamt_thorough.cfg"
@@ -876,7 +925,36 @@ def c15(run):
         for c in r.get("classes", []):
             cls[c] = cls.get(c, 0) + 1
     run.extra["classes"] = cls
-    run.nontrivial = set(i for i, r in enumerate(res) if any(c.startswith("hostile_") for c in r.get("classes", [])))
+    nontrivial = set(i for i, r in enumerate(res) if any(c.startswith("hostile_") for c in r.get("classes", [])))
+    # ---- the Viseca reader: statements as line sequences (spec/ImportViseca.tla)
+    run.rule += ("; spec/ImportViseca.tla: the line reader with one-line look-ahead as a state machine against the recursive statement grammar "
+                 "(MachineMatchesGrammar, OnePerEntryLine, ReadsBounded, CountIsCursor, Termination under fairness); every line sequence of up to "
+                 "%d lines over 14 line kinds (five entry shapes, category, exchange rate, fee, credited fee, malformed fee, Air tag, other text, "
+                 "digit-initial text, blank) and every statement of up to %d well-formed records out of 42 shapes, in three line-end styles (LF, CRLF, "
+                 "no final newline), through the Viseca importer: one transaction per entry line with the date, effective date, payee, counter "
+                 "account chosen by this record's own category, spent amount, rate, fee posting and pending mark the specification gives, and the "
+                 "printed ledger read back" % ((4, 2) if run.tier == "quick" else (5, 3)))
+    run.assumptions += ["Viseca: a sentence of the statement grammar must import; for other line sequences the importer may refuse, and if it does not, "
+                        "it yields one transaction per entry line"]
+    t = "quick" if run.tier == "quick" else "thorough"
+    live = tlc_check("MCImportViseca.tla", "ImportViseca_live.cfg", workers=4, timeout=600)
+    run.add_model(live)
+    off = len(res)
+    for sc in ("wf", "arb"):
+        nd2, n2, st2 = tlc_gen("MCImportViseca.tla", "ImportViseca_%s_%s.cfg" % (sc, t), "C15-viseca-%s" % sc, workers=8, timeout=2400)
+        run.add_model(st2)
+        recs2, res2 = feed(run, "viseca", nd2)
+        viseca_traces(run, sc, nd2, 1 if sc == "wf" else (2 if run.tier == "quick" else 8))
+        for i, r in enumerate(res2):
+            for c in r.get("classes", []):
+                cls["viseca_" + c] = cls.get("viseca_" + c, 0) + 1
+            if "several_records" in r.get("classes", []) or "foreign" in r.get("classes", []):
+                nontrivial.add(off + i)
+        off += len(res2)
+        if sc == "wf" and not any("well_formed" in r.get("classes", []) for r in res2):
+            raise ToolError("vacuous: no well-formed Viseca statement was replayed")
+    run.extra["classes"] = cls
+    run.nontrivial = nontrivial
     run.exhaustive = True
 
 
